@@ -14,6 +14,7 @@
 #include "torrent/system/callbacks.h"
 #include "torrent/utils/log.h"
 #include "torrent/utils/string_manip.h"
+#include "utils/verif_hooks.h"
 
 #define LT_LOG_DATA(data, log_level, log_fmt, ...)                       \
   lt_log_print_data(LOG_STORAGE_##log_level, data, "hash_queue", log_fmt, __VA_ARGS__);
@@ -84,6 +85,7 @@ HashQueue::remove(HashQueueNode::id_type id) {
     // check finishes.
     if (!result) {
       while (true) {
+        LT_VERIF_SCHED_WAIT("m:hq_done_lock", &m_done_chunks_lock, 0);
         {
           auto lock = std::scoped_lock(m_done_chunks_lock);
 
@@ -95,6 +97,7 @@ HashQueue::remove(HashQueueNode::id_type id) {
           }
         }
 
+        LT_VERIF_SCHED_WAIT("b:hq_wait", &m_has_done_chunks, 0);
         m_has_done_chunks.wait(false);
       }
     }
@@ -121,6 +124,7 @@ HashQueue::work() {
   assert(std::this_thread::get_id() == main_thread::thread_id());
 
   auto pop_next_fn = [this]() -> done_chunks_type::value_type {
+      LT_VERIF_SCHED_WAIT("m:hq_pop_lock", &m_done_chunks_lock, 0);
       auto guard = std::scoped_lock(m_done_chunks_lock);
 
       if (m_done_chunks.empty()) {
@@ -165,6 +169,7 @@ void
 HashQueue::chunk_done(HashChunk* hash_chunk, const HashString& hash_value) {
   assert(std::this_thread::get_id() == disk_thread::thread_id());
 
+  LT_VERIF_SCHED("hq_publish_lock");
   auto lock = std::scoped_lock(m_done_chunks_lock);
 
   // TODO: Should we use try_emplace and check for duplicates here?
